@@ -10,4 +10,32 @@ CLAIMED = {
  },
 }
 
+CLAIMED.update({
+ 'C01': {
+  'text': 'Model: Chart.v (document trees, LargeMicroStep::init as flatten), Exec.v (executable content, error protocol), Large.v (LargeMicroStep::step), Spec.v (W3C Appendix D transliteration, the oracle). Theorems (all charts, configurations, events, datamodel states): the transition set selected in a microstep is pairwise free of exit-set overlap; the conflict relation is symmetric; FINISHED is absorbing. The whole-run equivalence Large = Spec is not a theorem: it is false of the faithful model in three deviation classes recorded as known findings, and outside them it is decided per run: every implementation trace (corpus of defect witnesses, exhaustive-small charts, seeded random charts for lua/promela/null) is compared with the extracted Large model (correspondence) and judged by the extracted Spec (oracle).',
+  'note': 'Trusted: Coq kernel (theorems closed under the global context), extraction, Spec.v as reading of Appendix D, Large.v/Exec.v/Chart.v as hand models validated by correspondence only, the chart generator/renderer, vd_run.cpp. The equivalence with Appendix D is exploration-backed, not proved.',
+  'technique': 'Coq invariants of the selection algorithm + differential correspondence impl/model + executable Appendix-D specification as oracle',
+ },
+ 'C02': {
+  'text': 'legal_configb (Legal.v, SCXML 3.11 + root active) is the oracle applied to every configuration the implementation reports after every step, for both engines, on the C01 case set; the <scxml> element must be entered once and never exited. Theorem (all charts/configurations/events): selected transitions are pairwise free of exit-set overlap (the reason two selected transitions never complete the same compound state twice). A proof that the modelled microstep preserves legality for all charts is not finished (see DESIGN.md Changes).',
+  'note': 'Trusted: Legal.v as reading of 3.11; Large.v as hand model; generated charts; vd_run.cpp. Legality preservation itself is exploration-backed (every intermediate configuration of ~6000 runs x 2 engines), not proved.',
+  'technique': 'Coq-extracted legality oracle on every implementation configuration + selection invariant proved in Coq',
+ },
+ 'C03': {
+  'text': 'Both engines are run on the C01 case set and on the W3C IRP documents (lua/promela/null) and their complete traces (monitor notifications, log output, processed events, step() results, configurations, final data) are compared token by token. Differences are classified with the diagnostics of the Spec run; two classes are recorded as known findings. Theorem: symmetry of the large engine conflict relation (the fast engine matrix is symmetric by construction).',
+  'note': 'Trusted: vd_run.cpp, chart generator. No Coq model of FastMicroStep yet: this check is engine-vs-engine differential testing plus the Large model; it is the weakest of the chart checks as a proof.',
+  'technique': 'differential execution of the two engines (generated charts + IRP corpus) with Coq-extracted diagnostics',
+ },
+ 'C07': {
+  'text': 'Exec.v/Large.v are the statement of the error protocol (error event enqueued, rest of that block skipped, next block runs, step returns). Fault-injection charts (failing elements at random positions, three datamodels, both engines) must produce exactly the model trace and never crash; arbitrary well-formed XML from SCXML vocabulary is validated and, if accepted, interpreted in child processes where a crash is an outcome.',
+  'note': 'Trusted: Exec.v as hand model; memory safety outside the modelled code is exercised, not proved. Crashes of validate() itself are reported by C19.',
+  'technique': 'fault injection + differential correspondence with the Coq model of the content executor; crash detection in child processes',
+ },
+ 'C13': {
+  'text': 'wf_traceb (Trace.v) is an executable recogniser of the bracket grammar of DESIGN.md Appendix E; it and a completeness cross-check (configuration deltas, one stable notice per macrostep) judge every trace of the C01 and fault-injection runs for both engines.',
+  'note': 'Trusted: Trace.v grammar as reading of the property; vd_run.cpp records every callback. Theorems that the modelled executor only emits well-nested traces are in progress.',
+  'technique': 'Coq-extracted trace-grammar recogniser applied to every implementation trace',
+ },
+})
+
 NOT_APPLICABLE = {p: _PENDING for p in ['C%02d' % i for i in range(1, 21)] if p not in CLAIMED}
